@@ -323,6 +323,10 @@ pub struct GenCx<'a, 'b> {
     pub suppressed_hits: usize,
     /// set by `Option<T>` right before generating `T` (a bare `Vec` member is a required list)
     inside_option: bool,
+    /// request will be verified by s3s's SigV4 check: stay clear of the C05 findings (repeated header lines)
+    pub signed_profile: bool,
+    /// optional members are present more often
+    pub dense: bool,
 }
 
 #[derive(Debug, Clone, PartialEq)]
@@ -348,6 +352,8 @@ impl<'a, 'b> GenCx<'a, 'b> {
             suppress: Vec::new(),
             suppressed_hits: 0,
             inside_option: false,
+            signed_profile: false,
+            dense: false,
         }
     }
 
@@ -415,6 +421,10 @@ impl<'a, 'b> GenCx<'a, 'b> {
                 Binding::Payload | Binding::Body | Binding::StatusCode => {
                     cx.alpha = Alpha::Xml;
                     cx.ts = TsKind::Millis;
+                    if m.binding == Binding::Payload && m.target_type == "string" {
+                        // an empty text payload is indistinguishable from an absent one
+                        cx.non_empty = true;
+                    }
                 }
             }
             if m.required && !matches!(m.binding, Binding::Payload | Binding::Body) {
@@ -561,7 +571,18 @@ impl<T: Gen> Gen for Option<T> {
             return None;
         }
         // deeper levels are sparser so that values stay small
-        let p = if cx.required { 256 } else { match g.depth { 0 | 1 => 110, 2 => 90, 3 => 70, _ => 50 } };
+        let p = if cx.required {
+            256
+        } else if g.dense && g.depth <= 1 {
+            190
+        } else {
+            match g.depth {
+                0 | 1 => 110,
+                2 => 90,
+                3 => 70,
+                _ => 50,
+            }
+        };
         if g.t.chance(p) {
             g.inside_option = true;
             let v = T::generate(g);
@@ -581,7 +602,14 @@ impl<T: Gen> Gen for Vec<T> {
         if g.minimal {
             return (0..min).map(|_| T::generate(g)).collect();
         }
-        let max = if g.depth <= 2 { 3 } else { 2 };
+        let cx = g.cur();
+        let max = if g.signed_profile && cx.alpha == Alpha::Header && g.depth <= 1 {
+            1
+        } else if g.depth <= 2 {
+            3
+        } else {
+            2
+        };
         let n = g.t.len(max).max(min);
         (0..n).map(|_| T::generate(g)).collect()
     }
@@ -770,7 +798,9 @@ pub fn gen_event(g: &mut GenCx<'_, '_>, max_payload: usize) -> SelectObjectConte
             SelectObjectContentEvent::Records(RecordsEvent { payload })
         }
         1 => {
-            let details = if g.t.chance(200) {
+            // a Stats/Progress event without details has an empty text/xml payload, which the SDK's
+            // unmarshaller cannot read: not an SDK-representable value (frame-level behaviour is C15's)
+            let details = if g.t.chance(200) || g.purpose == Purpose::Sdk {
                 Some(Stats {
                     bytes_processed: <Option<i64> as Gen>::generate(g),
                     bytes_returned: <Option<i64> as Gen>::generate(g),
@@ -782,7 +812,7 @@ pub fn gen_event(g: &mut GenCx<'_, '_>, max_payload: usize) -> SelectObjectConte
             SelectObjectContentEvent::Stats(StatsEvent { details })
         }
         2 => {
-            let details = if g.t.chance(200) {
+            let details = if g.t.chance(200) || g.purpose == Purpose::Sdk {
                 Some(Progress {
                     bytes_processed: <Option<i64> as Gen>::generate(g),
                     bytes_returned: <Option<i64> as Gen>::generate(g),
